@@ -116,6 +116,39 @@ def run(ck):
                                      "descr": descr, "model": model, "impl": real})
 
     s.after_apply.append(divide_model)
+    reo_corr = {"same": 0, "differ": 0, "syntactic_conditions_hold": 0, "outside_syntactic_conditions": 0}
+
+    def reorder_model(p, q, op, descr, site, replay):
+        # correspondence of ReorderLoops.reorder_proc (C01_reorder_proc) with the real Procedure.reorder_loops
+        if op != "reorder_loops":
+            return
+        import ast, re
+        m = re.match(r"N(\[.*?\])$", descr)
+        if not m:
+            return
+        node = p._loopir_proc
+        for attr, idx in ast.literal_eval(m.group(1)):
+            node = getattr(node, attr)[idx]
+        name = s.sc.ref(p)
+        ex = s.sc.ex
+        job = "%s %s" % (name, ex.sym(node.iter))
+        model = s.sc.interp.ask("(reorder %s)" % job)
+        inside = s.sc.interp.ask("(reorderok %s)" % job).strip() == "ok"
+        real = ex.proc_sexp(q._loopir_proc)
+        defs = {n: sx for (n, sx) in ex.procs.values()}
+        stream = "reorder_loops-model-vs-impl"
+        ck.case(stream, (replay["program"], descr), sample={"loop": str(node.iter)},
+                tag="syntactic-conditions-hold" if inside else "outside-syntactic-conditions")
+        reo_corr["syntactic_conditions_hold" if inside else "outside_syntactic_conditions"] += 1
+        if expand(model, defs) == expand(real, defs):
+            reo_corr["same"] += 1
+            ck.corr_agree(stream)
+        else:
+            reo_corr["differ"] += 1
+            ck.corr_diverge(stream, {"program": replay["program"], "source": replay["source"],
+                                     "descr": descr, "model": model, "impl": real})
+
+    s.after_apply.append(reorder_model)
     findings = s.run(n_programs=ck.n(60, 600), budget_s=ck.n(110, 1300))
     # second stream: aliasing stress (windows of windows, the same cell reached through two names) under the
     # operations whose side conditions are location-set queries
@@ -135,6 +168,7 @@ def run(ck):
     ck.cov["context_contract"] = ctx_stats
     ck.cov["shift_loop_model_correspondence"] = shift_corr
     ck.cov["divide_loop_model_correspondence"] = div_corr
+    ck.cov["reorder_loops_model_correspondence"] = reo_corr
     ck.cov["operation_crashes"] = s.crashes
     ck.cov["inputs_run_in_reference_semantics"] = s.sc.runs + s2.sc.runs
     ck.cov["comparisons_where_source_ran_to_completion"] = s.sc.nontrivial
